@@ -9,7 +9,9 @@ import (
 )
 
 var c04Vary = []string{"", "X-A", "X-B", "X-A, X-B", "Accept", "Accept, X-A", "X-Token", "X-A|X-B", "X-B|X-A", "Accept-Encoding|X-A", "|X-A", "x-b ,X-A", "Accept-Encoding", "Accept-Language", "*", "X-A, *", "X-A,X-B", "Authorization", "Authorization, X-A", "Cookie", "User-Agent"}
-var c04Pieces = []string{"", "1", "2", "X-A", "X-B", "1X-B2", " 1", "1 ", "a,b", "b, a", "GZIP", "gzip", "x-gzip", "en;q=0.5", "en", ",", "caf$XE9", "caf$XE8", "caf$XC3$XA9", "caf%E9", "caf%e8", "$XEF$XBF$XBD", "636166e9"}
+var c04Pieces = []string{"", "1", "2", "X-A", "X-B", "1X-B2", " 1", "1 ", "a,b", "b, a", "GZIP", "gzip", "x-gzip", "en;q=0.5", "en", ",", "caf$XE9", "caf$XE8", "caf$XC3$XA9", "caf%E9", "caf%e8", "$XEF$XBF$XBD", "636166e9",
+	// blanks that are no optional whitespace of HTTP (U+00A0, U+3000, U+0085 in UTF-8: obs-text) at the edge of a member
+	"en$XC2$XA0", "$XE3$X80$X80en", "gzip$XC2$X85", "$XC2$XA0"}
 
 // values of fields with a structure of their own (credentials, cookies, product tokens)
 var c04Structured = map[string][]string{
@@ -17,6 +19,12 @@ var c04Structured = map[string][]string{
 	"Cookie":        {"sid=1; theme=dark", "sid=2; theme=dark", "sid=1", "theme=dark; sid=1"},
 	"User-Agent":    {"curl/8.0", "curl/8.1", "Mozilla/5.0 (X11) A/1", "Mozilla/5.0 (X11) A/2"},
 }
+
+// second = the first as a list field's normalisation spells it (members sorted, no blanks); for
+// a field without list semantics the two are different values
+var c04SamePairs = [][2]string{{"b, a", "a,b"}, {"fr, en", "en,fr"}, {"b,a", "a,b"}, {"gzip, br", "br,gzip"}, {"x, b ,a", "a,b,x"},
+	// the alias of a content coding is that coding in Accept-Encoding and another value elsewhere
+	{"x-gzip", "gzip"}, {"x-gzip", "gzip"}, {"br, x-gzip", "br,gzip"}, {"x-compress", "compress"}}
 
 // VaryLines renders a Vary pool value: "|" separates field lines (a list field may be split
 // over several lines, RFC 9110 §5.3; an empty line is an empty list).
@@ -37,12 +45,32 @@ func c04Value(t *rapid.T, label string) string {
 	return v
 }
 
-func c04Headers(t *rapid.T, label string) [][2]string {
+func c04Headers(t *rapid.T, label string, same *[2]string) [][2]string {
 	var h [][2]string
 	for _, f := range []string{"Authorization", "Cookie", "User-Agent"} {
 		if Pct(t, label+"-has-"+f, 35) {
 			h = append(h, H(f, Pick(t, label+"-"+f+"-sv", c04Structured[f]...)))
 		}
+	}
+	if same != nil {
+		// the same text (or a spelling of it that only some fields take for the same value)
+		// in several selecting fields at once: each field is compared under its own rules
+		pr := *same
+		for _, f := range []string{"X-A", "X-B", "Accept-Encoding", "Accept-Language"} {
+			w := []int{55, 30, 15}
+			if strings.HasSuffix(label, "pool0") {
+				w = []int{90, 0, 10} // one set spells everything the first way,
+			} else if strings.HasSuffix(label, "pool1") {
+				w = []int{0, 90, 10} // another one the second way
+			}
+			switch Weighted(t, label+"-same-"+f, w...) {
+			case 0:
+				h = append(h, H(f, pr[0]))
+			case 1:
+				h = append(h, H(f, pr[1]))
+			}
+		}
+		return h
 	}
 	for _, f := range []string{"X-A", "X-B", "Accept-Encoding", "Accept-Language"} {
 		switch Weighted(t, label+"-"+f, 45, 40, 7, 8) {
@@ -104,11 +132,17 @@ func C04(t *rapid.T) *world.Scenario {
 	n := rapid.IntRange(2, 9).Draw(t, "steps")
 	// a small pool of header sets so that the same variant is requested again
 	pool := make([][][2]string, rapid.IntRange(2, 4).Draw(t, "npool"))
+	var same *[2]string
+	if Pct(t, "samefam", 10) {
+		same = &c04SamePairs[rapid.IntRange(0, len(c04SamePairs)-1).Draw(t, "samev")]
+	}
 	for i := range pool {
-		pool[i] = c04Headers(t, "pool"+itoa(int64(i)))
+		pool[i] = c04Headers(t, "pool"+itoa(int64(i)), same)
 	}
 	grid := false
-	if Pct(t, "grid", 30) {
+	if same != nil {
+		// the pool drawn above is the family
+	} else if Pct(t, "grid", 30) {
 		// a 2x2 grid over two nominated fields: every pair of requests agrees on one field and
 		// differs on the other, while the origin switches between Vary: X-A and Vary: X-B
 		grid = true
@@ -174,6 +208,9 @@ func C04(t *rapid.T) *world.Scenario {
 		varyPool := c04Vary
 		if grid {
 			varyPool = []string{"X-A", "X-B", "X-A", "X-B", "X-A, X-B", ""}
+		}
+		if same != nil {
+			varyPool = []string{"X-A", "Accept-Encoding", "Accept-Encoding, X-A", "X-A, Accept-Encoding", "Accept-Language, X-B", "X-B|Accept-Language", "Accept-Encoding|X-A", "Accept-Language", ""}
 		}
 		if v := Pick(t, lbl+"-vary", varyPool...); v != "" {
 			rp.Header = append(rp.Header, VaryLines(v)...)
